@@ -217,9 +217,11 @@ func compile0(expr ast.Expr, env1 *val.Env, dbg bool) compiler.Closure {
 	case *ast.MemberExpr:
 		// 也可以 desugar 成 build-in-fun
 		obj := compile(e.Obj, env1, dbg)
-		idx := e.Index
+		name := e.Field.Name
 		return func(env *val.Env) *val.Val {
-			return obj(env).Obj().V[idx]
+			// 对象类型相等不考虑字段顺序, 所以必须按名称而不是静态类型的下标取值
+			v, _ := obj(env).Obj().Get(name)
+			return v
 		}
 
 	//case *ast.IfExpr:
